@@ -25,7 +25,8 @@ package osutil_test
 //     be removed, plus its parent directories up to but not including the base
 //     directory"; a directory that existed before and in/below which nothing was
 //     removed stays (violations of exactly this shape carry fingerprint F-C23-1);
-//     directories that exist only because of the content map are left open.
+//     directories that exist only because of the content map, and empty directories
+//     with a managed name (and parents depending on them) are left open.
 //  K  invalid keys (name outside the globs, path component, directory inside the
 //     namespace of the globs): error, unrelated entries untouched.
 //
@@ -505,16 +506,12 @@ func c23Judge(c c23Case, tree bool, r c23Result) (v c23Verdict, verdict error) {
 			}
 			return false
 		}
-		wantsBeneath := func(d string) bool {
-			pre := d + "/"
-			for p := range wants {
-				if strings.HasPrefix(p, pre) {
-					return true
-				}
+		wantsIn := map[string]bool{}
+		for p, w := range wants {
+			if !w.isFault() {
+				wantsIn[c23Parent(p)] = true
 			}
-			return false
 		}
-		var prunedForNothing []string
 		removedIn := map[string]bool{}
 		for _, p := range managed {
 			if unremovable[p] {
@@ -524,70 +521,119 @@ func c23Judge(c c23Case, tree bool, r c23Result) (v c23Verdict, verdict error) {
 				removedIn[c23Parent(p)] = true
 			}
 		}
-		var mustGo func(d string) bool
-		memo := map[string]bool{}
-		mustGo = func(d string) bool {
+		// T1: "subdirectories where files were removed that are now empty will itself be
+		// removed, plus its parent directories up to but not including the base
+		// directory".  Every directory gets one of:
+		//   stay  it holds remaining files, or it existed before and nothing in or below
+		//         it gives a reason to prune it
+		//   go    managed entries were removed in it (or a child had to go), and nothing
+		//         is left in it: it must be pruned
+		//   open  may exist or not: (a) a pre-existing *empty directory with a managed
+		//         name* — it is removed as an entry of its parent but is also one of the
+		//         walked sub-directories and may be re-created, depending on the visiting
+		//         order ("it is the caller's responsibility to not create directories that
+		//         may match globs"); (b) directories that exist only because of the content
+		//         map; (c) after a failure, directories in which desired files may have been
+		//         written and erased again; (d) parents whose fate depends on (a)-(c).
+		const (
+			stStay = iota
+			stGo
+			stOpen    // open, and its absence is a pruning that continues with the parent
+			stOpenNew // open, but never a reason to prune the parent
+		)
+		var status func(d string) int
+		memo := map[string]int{}
+		status = func(d string) int {
 			if m, ok := memo[d]; ok {
 				return m
 			}
-			res := false
 			_, existed := before[d]
+			res := stStay
 			switch {
 			case d == "." || filesBeneath(d):
-			case existed && isManagedEntry(d) && !unremovable[d]:
-				// an empty directory with a managed name is itself a removed entry
-				res = true
 			case existed && isManagedEntry(d):
+				res = stOpen
+				lab["managed-empty-dir"] = true
 			default:
-				trigger := removedIn[d]
-				all := true
+				anyStay, allGo, anyGo, anyOpen := false, true, false, false
 				for _, ch := range childDirs[d] {
-					if mustGo(ch) {
-						trigger = true
-					} else {
-						all = false
+					switch status(ch) {
+					case stStay:
+						anyStay, allGo = true, false
+					case stGo:
+						anyGo = true
+					case stOpen:
+						anyOpen, allGo = true, false
+					case stOpenNew:
+						allGo = false
 					}
 				}
-				res = trigger && all
+				switch {
+				case anyStay:
+				case allGo && (removedIn[d] || anyGo):
+					res = stGo
+				case removedIn[d] || anyGo || anyOpen || (class == "fail-closed" && wantsIn[d]):
+					res = stOpen
+				case !existed:
+					res = stOpenNew
+				}
 			}
 			memo[d] = res
 			return res
 		}
+		var prunedForNothing, notPruned []string
 		for _, d := range verifkit.SortedKeys(allDirs) {
 			a, present := after[d]
-			switch {
-			case filesBeneath(d):
-				if !present || a.Kind != "dir" {
-					return fail("%s: directory %s holding remaining files is gone", class, d)
+			b, existed := before[d]
+			if present && a.Kind != "dir" {
+				return fail("%s: %s is %v, not a directory", class, d, a)
+			}
+			switch status(d) {
+			case stStay:
+				if !present {
+					if filesBeneath(d) {
+						return fail("%s: directory %s holding remaining files is gone", class, d)
+					}
+					prunedForNothing = append(prunedForNothing, d)
+					continue
 				}
-				if b, ok := before[d]; ok && !c23SameNode(b, a, !isManagedEntry(d)) {
+				if existed && !c23SameNode(b, a, !isManagedEntry(d)) {
 					return fail("%s: directory %s was %v (ino %d), is %v (ino %d)", class, d, b, b.Ino, a, a.Ino)
 				}
-			case mustGo(d):
+			case stGo:
 				if present {
-					return fail("%s: directory %s lost its managed files, is empty, but was not removed", class, d)
+					notPruned = append(notPruned, d)
+					continue
 				}
 				lab["dir-pruned"] = true
 			default:
-				if present && a.Kind != "dir" {
-					return fail("%s: %s is %v, not a directory", class, d, a)
-				}
-				// T1 says which directories are pruned: those "where files were removed
-				// that are now empty" and then their parents.  A directory that was
-				// there before, in which (and below which) nothing was removed, stays.
-				// Open: directories that only exist because of the content map, and,
-				// after a failure, directories in which desired files may have been
-				// written and erased again.
-				b, existed := before[d]
-				if !existed || isManagedEntry(d) || (class == "fail-closed" && wantsBeneath(d)) {
-					continue
-				}
-				if !present {
-					prunedForNothing = append(prunedForNothing, d)
-				} else if b.Ino != a.Ino {
-					return fail("%s: directory %s was recreated (ino %d -> %d)", class, d, b.Ino, a.Ino)
+				if present && existed && isManagedEntry(d) && c23HasChildren(after, d) {
+					return fail("%s: directory %s with a managed name is not empty any more", class, d)
 				}
 			}
+		}
+		if len(notPruned) > 0 {
+			// F-C23-2: after 1a0a6ff the directory in which the failure happened is not
+			// queued for pruning any more: EnsureDirStateGlobs erases its managed files
+			// itself and returns them together with the error, and the first loop of
+			// EnsureTreeState breaks before looking at that list; the erase loop then
+			// finds nothing left to remove there.
+			atFailure := class == "fail-closed"
+			for _, d := range notPruned {
+				hit := false
+				for _, o := range append(append([]string{}, wObst...), rObst...) {
+					od := c23Parent(o)
+					if !strings.HasPrefix(o, "mkdir ") && (od == d || strings.HasPrefix(od, d+"/")) {
+						hit = true
+					}
+				}
+				atFailure = atFailure && hit
+			}
+			if !atFailure {
+				return fail("%s: directories %q lost their managed files, are empty, but were not removed", class, notPruned)
+			}
+			pendingKnown = verifkit.Knownf("F-C23-2", "%s: directories %q lost their managed files in the failing EnsureDirStateGlobs call, are empty, "+
+				"but were not pruned (obstacles %v)", class, notPruned, append(wObst, rObst...))
 		}
 		if len(prunedForNothing) > 0 {
 			if len(r.removed) == 0 {
